@@ -1,0 +1,18 @@
+//go:build verif
+
+package certs
+
+import "time"
+
+// Shims for the verification harness (build tag verif). They expose unexported code without
+// re-implementing it.
+
+// VerifIssue is issue: the common part of IssueLeafAt and IssueIntermediate, with the certificate
+// type and the issuance time chosen by the caller.
+func VerifIssue(parent *Certificate, child *Identity, certType CertificateType, issuedAt time.Time, duration time.Duration) (*Certificate, error) {
+	return issue(parent, child, certType, issuedAt, duration)
+}
+
+// VerifRawLen returns the number of raw bytes a certificate object holds (what VerifyParent
+// slices the signed part from).
+func VerifRawLen(c *Certificate) int { return c.raw.Len() }
